@@ -536,6 +536,34 @@ func literalPrefix(prog *syntax.Prog) (string, bool) {
 	if i.Op != syntax.InstEmptyWidth || syntax.EmptyOp(i.Arg)&syntax.EmptyBeginText == 0 {
 		return prog.Prefix()
 	}
+	// stdlib applies the anchored rule only to its one-pass programs. The cheap part of
+	// that test: with alternations present, every instruction leading to Match must be
+	// an end-of-text assertion (the ambiguity analysis itself is not reproduced here).
+	hasAlt := false
+	for k := range prog.Inst {
+		if op := prog.Inst[k].Op; op == syntax.InstAlt || op == syntax.InstAltMatch {
+			hasAlt = true
+			break
+		}
+	}
+	for k := range prog.Inst {
+		inst := &prog.Inst[k]
+		opOut := prog.Inst[inst.Out].Op
+		switch inst.Op {
+		default:
+			if opOut == syntax.InstMatch && hasAlt {
+				return prog.Prefix()
+			}
+		case syntax.InstAlt, syntax.InstAltMatch:
+			if opOut == syntax.InstMatch || prog.Inst[inst.Arg].Op == syntax.InstMatch {
+				return prog.Prefix()
+			}
+		case syntax.InstEmptyWidth:
+			if opOut == syntax.InstMatch && syntax.EmptyOp(inst.Arg)&syntax.EmptyEndText == 0 {
+				return prog.Prefix()
+			}
+		}
+	}
 	i = &prog.Inst[i.Out]
 	for i.Op == syntax.InstNop {
 		i = &prog.Inst[i.Out]
